@@ -3,6 +3,7 @@ package props
 import (
 	"fmt"
 	"strings"
+	"time"
 
 	"verif/harness/mon"
 	"verif/harness/sim"
@@ -76,6 +77,18 @@ func runC06(c *mon.Ctx) {
 			}
 			a0.Cond.Restrictions = append(a0.Cond.Restrictions, auds)
 		}
+		window := "inside"
+		switch r.IntN(5) {
+		case 0: // Conditions already expired (the bearer confirmation is still valid): warnings must still mirror the conditions
+			a0.Cond.NotBefore, a0.Cond.NotOnOrAfter = sim.S(sim.TS(now.Add(-2*time.Hour))), sim.S(sim.TS(now.Add(-time.Hour)))
+			window = "expired"
+		case 1:
+			a0.Cond.NotBefore, a0.Cond.NotOnOrAfter = sim.S(sim.TS(now.Add(time.Hour))), sim.S(sim.TS(now.Add(2*time.Hour)))
+			window = "not-yet-valid"
+		case 2:
+			a0.Cond.NotOnOrAfter = sim.S(sim.TS(now))
+			window = "ends-now"
+		}
 		a0.Cond.OneTimeUse = r.IntN(2) == 0
 		a0.Cond.Proxy = nil
 		if r.IntN(2) == 0 {
@@ -121,7 +134,7 @@ func runC06(c *mon.Ctx) {
 			cs.Note("%v", err)
 			continue
 		}
-		cs.Desc("cfgAud=%q restrictions=%q otu=%v proxy=%s n=%d", cfgAud, a0.Cond.Restrictions, a0.Cond.OneTimeUse, proxyString(a0.Cond.Proxy), len(rec.Assertions))
+		cs.Desc("window=%s cfgAud=%q restrictions=%q otu=%v proxy=%s n=%d", window, cfgAud, a0.Cond.Restrictions, a0.Cond.OneTimeUse, proxyString(a0.Cond.Proxy), len(rec.Assertions))
 		cs.Input([]byte(doc))
 		sp, _, _ := pool.SPSource(k, now, signer)
 		sp.AudienceURI = cfgAud
@@ -138,6 +151,10 @@ func runC06(c *mon.Ctx) {
 			continue
 		}
 		ok := true
+		if wi.InvalidTime != (window != "inside") {
+			ok = false
+			cs.Violation("invalidtime-mismatch", "InvalidTime=%v with the Conditions window %s", wi.InvalidTime, window)
+		}
 		if wi.NotInAudience != wantNotIn {
 			ok = false
 			cs.Violation(fmt.Sprintf("notinaudience-%v-want-%v", wi.NotInAudience, wantNotIn), "NotInAudience=%v; configured %q, restrictions %q", wi.NotInAudience, cfgAud, a0.Cond.Restrictions)
